@@ -2,7 +2,7 @@
    Executable definitions only. Sub-models: Model/Footer.v (footer parsers, Open), Model/HostileTree.v (TOC entry tree:
    initFields / getSource / assignIDs / directory walk), Model/HostileRead.v (fs/reader file.ReadAt chunk assembly). *)
 From Coq Require Import List ZArith NArith Bool.
-From SV Require Export Model.Footer Model.HostileTree Model.HostileRead.
+From SV Require Export Model.Footer Model.HostileTree Model.HostileRead Model.HostileChunk.
 Import ListNotations.
 Local Open Scope Z_scope.
 
@@ -42,7 +42,28 @@ Definition open_matches (size : Z) (ext : bool) (tocoff : Z) (tail51 : bytes) (g
                      (decompressors ext)
   end.
 
+(* chunk lookup + ReadAt entry selection: observed [found; ChunkOffset; ChunkSize; selected index or -1] *)
+Definition chunk_obs (lk : outcome (option chunk)) (sel : outcome Z) (o : obs) : bool :=
+  match lk, sel, o with
+  | Ok l, (Ok _ | Err) as s, OOk [f; a; b; i] =>
+      (match l with
+       | None => Z.eqb f 0
+       | Some c => Z.eqb f 1 && Z.eqb a (co c) && Z.eqb b (cs c)
+       end) && (match s with Ok k => Z.eqb i k | _ => Z.eqb i (-1) end)
+  | Panic, _, OPanic | _, Panic, OPanic => true
+  | OutOfFuel, _, OHang | _, OutOfFuel, OHang => true
+  | _, _, _ => false
+  end.
+Definition esgz_chunk_matches (chunks : list chunk) (size off : Z) (o : obs) : bool :=
+  match chunks with
+  | [] => false
+  | first :: _ => chunk_obs (esgz_chunk_entry first (if zlen chunks <? 2 then [] else chunks) off) (esgz_read_select size chunks off) o
+  end.
+Definition db_chunk_matches (chunks : list chunk) (size off : Z) (o : obs) : bool :=
+  chunk_obs (db_chunk_entry chunks off) (db_read_select size chunks off) o.
+
 Inductive case :=
+| CChunk (chunks : list chunk) (size off : Z) (o : obs)
 | CFooter (d : dec) (p : bytes) (gz : gzres) (o : obs)
 | COpen (size : Z) (ext : bool) (tocoff : Z) (tail51 : bytes) (g51 g47 g46 : gzres) (o : obs)
 | CTree (es : list entry) (o : obs) (listing : list (name * nat))
@@ -72,6 +93,7 @@ Definition case_ok (c : case) : bool :=
   | COpen size ext tocoff t g51 g47 g46 o => open_matches size ext tocoff t g51 g47 g46 o
   | CTree es o l => tree_matches es o l
   | CRead cs off len fsize hits o => read_matches cs off len fsize hits o
+  | CChunk cs size off o => esgz_chunk_matches cs size off o
   end.
 
 Fixpoint mismatches_from (n : nat) (cs : list case) : list nat :=
